@@ -74,6 +74,23 @@ def handle (j : Json) : Json :=
       else if lm == "RSH" then (canRsh t, exJson (cmdRsh t))
       else (false, Json.str "bad-lm")
     Json.mkObj [("can", Json.bool can), ("cmd", cmd)]
+  else if op == "jsrun" then
+    -- JSRUN: the placement comes as resource sets
+    let rs : List RSet := (jarr j "rsets").map (fun r =>
+      { node := jnat r "node", ranks := (jarr r "ranks").map (fun x => (asArr x).map asNat), gpus := (jarr r "gpus").map asNat })
+    let smpi := match jsrunSmpi (jbool j "cuda") (jnat j "nranks") with
+                | some true => Json.str "gpu" | some false => Json.str "off" | none => Json.null
+    if jbool j "erf" then
+      Json.mkObj [("lm", "jsrun_erf"), ("smpi", smpi),
+                  ("lines", jl ((erfFrom 0 rs).map (fun l =>
+                     Json.mkObj [("ranks", jnl l.ranks), ("host", jn l.host), ("cpus", jl (l.cpus.map jnl)), ("gpus", jnl l.gpus)])))]
+    else
+      match jsrunOpts (jnat j "tpc") (jnat j "gpn") (jbool j "omp") rs with
+      | none => Json.mkObj [("err", "Error")]
+      | some o =>
+        Json.mkObj [("lm", "jsrun"), ("smpi", smpi), ("n", jn o.n), ("a", jn o.a), ("c", jn o.c), ("g", jn o.g),
+                    ("r", jopt jn o.r),
+                    ("b", match o.b with | none => Json.null | some none => Json.str "rs" | some (some k) => jn k)]
   else if op == "find" then
     match findLauncher ((jarr j "order").map (fun e => (asNat (asArr e)[0]!, (match (asArr e)[1]! with | .bool b => b | _ => false)))) with
     | some n => jn n
